@@ -35,7 +35,7 @@ SHAPES = [
 def plan(tier, seed):
     n = 1200 if tier == "quick" else 20000
     return {"shards": 16, "timeout": 900 if tier == "quick" else 3000, "n": n,
-            "floors": {"suite_conversions_judged": 500, "pairs_compared": n, "distinct": 60, "mixed_content_pairs": 200, "typed_dict_pairs": n // 20}}
+            "floors": {"suite_conversions_judged": 500, "pairs_compared": n * 4 // 5, "distinct": 60, "mixed_content_pairs": 200, "typed_dict_pairs": n // 20}}
 
 
 def shape_form(rng, i):
